@@ -62,6 +62,10 @@ pub assume_specification [core::time::Duration::subsec_nanos] (d: &core::time::D
                     'self.Timelike__hour() * 3600 + self.Timelike__minute() * 60 + self.Timelike__second()', 'R6 trait call re-pointed')])
     u.prove(F, 'add', 'impl Add<TimeDelta> for NaiveTime {', cid='NaiveTime::Add__add', rename='Add__add')
     u.prove(F, 'sub', 'impl Sub<TimeDelta> for NaiveTime {', cid='NaiveTime::Sub__sub', rename='Sub__sub')
+    u.prove(F, 'add_assign', 'impl AddAssign<TimeDelta> for NaiveTime {', cid='NaiveTime::AddAssign__add_assign', rename='AddAssign__add_assign',
+            subst=[('self.add(rhs)', 'self.Add__add(rhs)', 'R6 trait call re-pointed')])
+    u.prove(F, 'sub_assign', 'impl SubAssign<TimeDelta> for NaiveTime {', cid='NaiveTime::SubAssign__sub_assign', rename='SubAssign__sub_assign',
+            subst=[('self.sub(rhs)', 'self.Sub__sub(rhs)', 'R6 trait call re-pointed')])
     u.prove(F, 'sub', 'impl Sub<NaiveTime> for NaiveTime {', cid='NaiveTime::Sub_NaiveTime__sub', rename='Sub_NaiveTime__sub')
     u.prove(F, 'add', 'impl Add<Duration> for NaiveTime {', cid='NaiveTime::Add_Duration__add', rename='Add_Duration__add')
     u.prove(F, 'sub', 'impl Sub<Duration> for NaiveTime {', cid='NaiveTime::Sub_Duration__sub', rename='Sub_Duration__sub')
